@@ -249,12 +249,15 @@ class CalendarRule(PluginResultIterator):
         elif isinstance(case, date):
             d: date = case
             self._process_special_cases(
-                datetime.combine(d, self.start_date.time(), tzinfo=timezone.utc), action
+                datetime.combine(
+                    d, self.start_date.time(), tzinfo=self.start_date.tzinfo
+                ),
+                action,
             )
         elif isinstance(case, str):
             d2: date = parse_date(case)
             dt: datetime = datetime.combine(
-                d2, self.start_date.time(), tzinfo=timezone.utc
+                d2, self.start_date.time(), tzinfo=self.start_date.tzinfo
             )
             self._process_special_cases(dt, action)
         else:  # pragma: no cover
